@@ -24,8 +24,9 @@ compiler (Model/Compile.lean) and the VM (Model/VM.lean). Tied to the code by th
   the variables, the dictionary and the code are untouched. Hence the failed line is not re-executed.
 
 * `rejected_source_then_any_history` — the follow-up, also for all inputs: the interpreter that was given the rejected
-  source and the one that never saw it give the same answers (same errors) to ANY later history of sources and REPL
-  aborts, print the same text, and stay equal in everything but the meter, the stop flag and the last-token marker
+  source and the one that never saw it give the same answers (same errors) to ANY later history of sources (`eval`,
+  `compile`), `run()` calls, whole REPL lines (compile, run, `abort_run` only when the run failed — what `run_line` does
+  since repair 1568e86) and REPL aborts, print the same text, and stay equal in everything but the meter, the stop flag and the last-token marker
   (`later_twin`; Proofs/VMGhost.lean generated from the VMSim templates, Proofs/SessionGhost.lean: every function of
   the session model respects the relation). Hypothesis: no instruction limit (with one, what the rejected source's
   meta blocks executed stays counted — that is C14, and intended).
@@ -36,6 +37,7 @@ outside the model).
 -/
 import XehModel.Proofs.SessionUnwind
 import XehModel.Proofs.SessionGhost
+import XehModel.Proofs.SessionRepl
 
 namespace Xeh.C10
 open Xeh Xeh.Mach Xeh.Compile Xeh.Session Xeh.Session.Sess
@@ -127,6 +129,11 @@ inductive Later where
   | source (mode : Mode) (toks : List Tok)
   /-- the REPL's `abort_run` after a line that failed at run time -/
   | abort
+  /-- `run()`: the program that is paused (or was just compiled) goes on -/
+  | run
+  /-- a whole REPL line (src/repl.rs `run_line`): `compile`, then `run`, and `abort_run` only when the run failed
+      (a line that is rejected has been forgotten already: nothing is aborted — repair 1568e86) -/
+  | line (toks : List Tok)
 
 /-- what the user sees of it -/
 inductive Seen where
@@ -141,6 +148,27 @@ inductive Seen where
 def later (fuel : Nat) : List Later → Sess → Option (List Seen × Sess)
   | [], s => some ([], s)
   | .abort :: rest, s => (later fuel rest s.abortRun).map fun r => (.aborted :: r.1, r.2)
+  | .run :: rest, s =>
+    match s.runS fuel with
+    | .ok s' => (later fuel rest s').map fun r => (.done :: r.1, r.2)
+    | .err e s' => (later fuel rest s').map fun r => (.failed e :: r.1, r.2)
+    | .panic p s' => (later fuel rest s').map fun r => (.panic p :: r.1, r.2)
+    | .unsupported _ => none
+    | .timeout => none
+  | .line toks :: rest, s =>
+    match s.buildSource fuel .compile toks with
+    | .done s1 =>
+      match s1.runS fuel with
+      | .ok s2 => (later fuel rest s2).map fun r => (.done :: r.1, r.2)
+      | .err e s2 => (later fuel rest s2.abortRun).map fun r => (.failed e :: r.1, r.2)
+      | .panic p s2 => (later fuel rest s2).map fun r => (.panic p :: r.1, r.2)
+      | .unsupported _ => none
+      | .timeout => none
+    | .rejected e s' => (later fuel rest s').map fun r => (.rejected e :: r.1, r.2)
+    | .failed e s' => (later fuel rest s'.abortRun).map fun r => (.failed e :: r.1, r.2)
+    | .panic p s' => (later fuel rest s').map fun r => (.panic p :: r.1, r.2)
+    | .unsupported _ => none
+    | .timeout => none
   | .source mode toks :: rest, s =>
     match s.buildSource fuel mode toks with
     | .done s' => (later fuel rest s').map fun r => (.done :: r.1, r.2)
@@ -200,6 +228,57 @@ theorem later_twin {o o' : List Char} (fuel : Nat) (evs : List Later)
     | abort =>
       simp only [later]
       exact lift .aborted _ _ ⟨z.abortRun, gs_abortRun h1, gs_abortRun h2⟩
+    | run =>
+      have r1 := gst_runS h1 fuel
+      have r2 := gst_runS h2 fuel
+      simp only [later]
+      revert r1 r2
+      cases z.runS fuel <;> cases x.runS fuel <;> cases y.runS fuel <;> simp only [GRt] <;> intro r1 r2 <;>
+        first
+          | exact r1.elim
+          | exact r2.elim
+          | trivial
+          | skip
+      · exact lift .done _ _ ⟨_, r1, r2⟩
+      · obtain ⟨e1, g1⟩ := r1; obtain ⟨e2, g2⟩ := r2; subst e1 e2
+        exact lift (.failed _) _ _ ⟨_, g1, g2⟩
+      · obtain ⟨e1, g1⟩ := r1; obtain ⟨e2, g2⟩ := r2; subst e1 e2
+        exact lift (.panic _) _ _ ⟨_, g1, g2⟩
+    | line toks =>
+      have r1 := gs_buildSource fuel .compile (by decide) toks x z h1
+      have r2 := gs_buildSource fuel .compile (by decide) toks y z h2
+      simp only [later]
+      revert r1 r2
+      cases z.buildSource fuel .compile toks <;> cases x.buildSource fuel .compile toks <;>
+        cases y.buildSource fuel .compile toks <;> intro r1 r2 <;>
+        first
+          | exact r1.elim
+          | exact r2.elim
+          | trivial
+          | skip
+      · -- built on all three: now the run
+        rename_i zs xs ys
+        have q1 := gst_runS r1.toGSt fuel
+        have q2 := gst_runS r2.toGSt fuel
+        dsimp only
+        revert q1 q2
+        cases zs.runS fuel <;> cases xs.runS fuel <;> cases ys.runS fuel <;> simp only [GRt] <;> intro q1 q2 <;>
+          first
+            | exact q1.elim
+            | exact q2.elim
+            | trivial
+            | skip
+        · exact lift .done _ _ ⟨_, q1, q2⟩
+        · obtain ⟨e1, g1⟩ := q1; obtain ⟨e2, g2⟩ := q2; subst e1 e2
+          exact lift (.failed _) _ _ ⟨_, gst_abortRun g1, gst_abortRun g2⟩
+        · obtain ⟨e1, g1⟩ := q1; obtain ⟨e2, g2⟩ := q2; subst e1 e2
+          exact lift (.panic _) _ _ ⟨_, g1, g2⟩
+      · obtain ⟨e1, g1⟩ := r1; obtain ⟨e2, g2⟩ := r2; subst e1 e2
+        exact lift (.rejected _) _ _ ⟨_, g1.toGSt, g2.toGSt⟩
+      · obtain ⟨e1, g1⟩ := r1; obtain ⟨e2, g2⟩ := r2; subst e1 e2
+        exact lift (.failed _) _ _ ⟨_, gst_abortRun g1.toGSt, gst_abortRun g2.toGSt⟩
+      · obtain ⟨e1, g1⟩ := r1; obtain ⟨e2, g2⟩ := r2; subst e1 e2
+        exact lift (.panic _) _ _ ⟨_, g1.toGSt, g2.toGSt⟩
     | source mode toks =>
       have hm := hmodes mode toks List.mem_cons_self
       have r1 := gs_buildSource fuel mode hm toks x z h1
@@ -222,8 +301,8 @@ theorem later_twin {o o' : List Char} (fuel : Nat) (evs : List Later)
         exact lift (.panic _) _ _ ⟨_, g1.toGSt, g2.toGSt⟩
 
 /-- **C10, the follow-up.** Take the interpreter that was given a rejected source and the interpreter that never saw it.
-    Whatever is submitted afterwards — any number of sources in eval or compile mode, each of which may build, be
-    rejected in turn, fail at run time, with REPL aborts in between — the two give the same answer to every one of
+    Whatever is submitted afterwards — any number of sources in eval or compile mode, `run()` calls and whole REPL lines,
+    each of which may build, be rejected in turn, fail at run time, with REPL aborts in between — the two give the same answer to every one of
     them (the same errors), print the same text `d`, and end up equal in everything but the meter, the stop flag and
     the last-token marker. -/
 theorem rejected_source_then_any_history (fuel : Nat) (mode : Mode) (toks : List Tok) (s s' : Sess) (e : Xerr)
@@ -266,6 +345,11 @@ example : ∃ e s', ({} : Sess).buildSource 5 .eval [.lit (.int 1), .word "foo",
 /-- the follow-up theorem is about histories that have answers: a later source is built, a second one is
     rejected in turn, and the REPL aborts -/
 example : ((later 5 [.source .compile [.lit (.int 1)], .source .compile [.word "foo"], .abort] ({} : Sess)).map (·.1)).isSome = true := by
+  simp [later, Sess.buildSource, Sess.build1, tokens, Sess.visible, Sess.visLen, CState.topFun, Sess.ofC, buildWord, Sess.toC, cerr,
+    andRun, Sess.metaRun, Sess.contextOpen, Sess.emit, Sess.contextClose, Sess.hasPendingFlow, Sess.fromC, forgetBuildLog]
+
+/-- … and about REPL lines: a line is built, the next one is rejected (and, being rejected, aborts nothing) -/
+example : ((later 5 [.source .compile [.lit (.int 1)], .line [.word "foo"], .abort] ({} : Sess)).map (·.1)).isSome = true := by
   simp [later, Sess.buildSource, Sess.build1, tokens, Sess.visible, Sess.visLen, CState.topFun, Sess.ofC, buildWord, Sess.toC, cerr,
     andRun, Sess.metaRun, Sess.contextOpen, Sess.emit, Sess.contextClose, Sess.hasPendingFlow, Sess.fromC, forgetBuildLog]
 
